@@ -812,7 +812,7 @@ impl Scn {
             upper = Some(d);
         }
         std::fs::create_dir_all(base.join("work")).unwrap();
-        tr.emit(&json!({"e":"Reset","seg":seg,"id":scn["id"],"B":b,"upper":has_upper,"nl":lowers.len(),"names":names,
+        tr.emit(&json!({"e":"Reset","seg":seg,"id":scn["id"].as_str().unwrap_or("scn"),"B":b,"upper":has_upper,"nl":lowers.len(),"names":names,
                         "depth": scn["depth"].as_u64().unwrap_or(2)}));
         // the Layers event is read back from the host (what is really on disk)
         let up_rows = upper.as_ref().map(|u| host_rows(u, &blocks, true)).unwrap_or_default();
